@@ -30,8 +30,14 @@ pub struct Config {
 impl Config {
     /// Write the given metadata.
     pub fn write_meta(&self) -> Result<()> {
+        #[cfg(anything_verif)]
+        crate::verif::crashpoint("before_write_meta");
         let f = fs::File::create(&self.meta_path)?;
+        #[cfg(anything_verif)]
+        crate::verif::crashpoint("meta_created_empty");
         serde_json::to_writer(f, &self.meta)?;
+        #[cfg(anything_verif)]
+        crate::verif::crashpoint("after_write_meta");
         Ok(())
     }
 
